@@ -66,6 +66,20 @@ NEEDS = {
  "C02b-nan-posterior-rows-lose-metadata": "variational_gamma, a mutation above a root (NaN posterior) that already carries other metadata fields",
  "C06b-eps-added-to-poisson-mean": "maximization with eps rescaled by a large time factor c (eps*c comparable with dt*mu*span)",
  "C12b-log-poisson-inline-zero-times-neg-inf": "maximization, logarithmic space, eps exactly 0 and a non-sample child whose parent edge has no mutations",
+ "C16b-timepoints-returned-unsorted": "an explicit timepoints array that is not already increasing (descending / shuffled)",
+ "C03b-forced-pass-skips-sample-sample-edges": "same patch as C27b asked for under C03: a direct sample-to-sample edge with a gap <= min_branch_length or a raised child",
+ "C08b-contemporaneous-simplify-drops-keep-unary": "edge metadata AND unary nodes kept AND allow_unary=True AND a discrete method (prior built from a differently simplified copy)",
+ "C04b-fast-path-json-nan": "variational_gamma, mutation table without prior metadata, a mutation above a root (NaN posterior written as invalid JSON)",
+ "C07b-second-pass-unnormalised-span-weights": "allow_unary=True, a unary node with only unary ancestors up to a root that is a coalescent node in another tree, coordinates not in unit scale",
+ "C14b-approximate-mode-sticky": "one ConditionalCoalescentTimes object with a lookup table: add(n1, approximate=True) then a default add(n2) for small n2",
+ "C17b-epoch-lookup-assumes-sorted-times": "an unsorted time vector on a history with >= 2 epochs",
+ "C18b-isclose-child-age-zero": "a free parent above a fixed child whose age is <= 1e-8 but not 0 (the problem posed in very small time units)",
+ "C21c-twin-block-factor-drops-damped-part": "singletons_phased=False, a diploid individual whose two nodes share a parent, and a damped twin-block update",
+ "C33c-as-dict-drops-single-time-break": "a discrete method with population_size given as a history of exactly two epochs",
+ "C35b-repeated-time-breaks-pass-validation": "population_size history with two equal time breaks (must be rejected with a ValueError, gives AssertionError)",
+ "C36b-write-oserror-suppressed": "the cache write failing with an OSError (disk full / file size limit) inside the last field of the last row",
+ "C37b-root-mutation-keeps-input-node-age": "rescale_tree_sequence on an input with a mutation above a root",
+ "C38b-ignore-flag-switches-off-mid-pass": "ignore_oldest_root=True, a child of the last-id node visited after an internal node not attached to it (tied times: order by id)",
 }
 for d in sorted(glob.glob(os.path.join(ROOT, "seeded", "*"))):
     name = os.path.basename(d)
